@@ -238,11 +238,17 @@ func MakeImage(r *core.Rng, s ImgSpec) image.Image {
 				case "nrgba":
 					a := uint8(255)
 					if s.Alpha {
-						a = uint8(96 + core.NewRng(0x5eed, uint64(x), uint64(y)).Intn(160))
+						a = alphaAt(x, y, s.W)
 					}
 					img.Set(s.OX+x, s.OY+y, color.NRGBA{cr, cg, cb, a})
 				default:
-					img.Set(s.OX+x, s.OY+y, color.RGBA{cr, cg, cb, 255})
+					if s.Alpha && s.Kind == "rgba" {
+						// premultiplied, with fully transparent regions (a sticker on nothing)
+						a := uint32(alphaAt(x, y, s.W))
+						img.Set(s.OX+x, s.OY+y, color.RGBA{uint8(uint32(cr) * a / 255), uint8(uint32(cg) * a / 255), uint8(uint32(cb) * a / 255), uint8(a)})
+					} else {
+						img.Set(s.OX+x, s.OY+y, color.RGBA{cr, cg, cb, 255})
+					}
 				}
 			}
 		}
@@ -270,6 +276,14 @@ func MakeImage(r *core.Rng, s ImgSpec) image.Image {
 		}
 		return finish(img)
 	}
+}
+
+// alphaAt: varying alpha below 255, and fully transparent blocks in a third of the image.
+func alphaAt(x, y, w int) uint8 {
+	if (x/5+y/7)%3 == 0 {
+		return 0
+	}
+	return uint8(96 + core.NewRng(0x5eed, uint64(x), uint64(y)).Intn(160))
 }
 
 var ImgKinds = []string{"rgba", "nrgba", "gray", "ycbcr444"}
